@@ -218,6 +218,7 @@ func init() {
 	})
 	Impl("nbp.unmarshal", func(a []Val) Val {
 		var p nbtns.NBTNSPacket
+		dirty(&p)
 		n, err := p.Unmarshal(exact(a[0].B))
 		if err != nil {
 			return VErr()
@@ -301,6 +302,7 @@ func init() {
 			return "C10/packet/marshal-rejects-valid-packet", err.Error()
 		}
 		var q nbtns.NBTNSPacket
+		dirty(&q)
 		n, err := q.Unmarshal(exact(bs))
 		if err != nil {
 			return "C10/packet/unmarshal-rejects-own-output", fmt.Sprintf("%v on %s", err, c10Short(bs))
@@ -360,6 +362,7 @@ func init() {
 		p := c10PacketOf(a[0])
 		bs := rfc1002Write(p)
 		var q nbtns.NBTNSPacket
+		dirty(&q)
 		n, err := q.Unmarshal(exact(bs))
 		if err != nil {
 			return "C10/packet/unmarshal-rejects-rfc1002-packet", fmt.Sprintf("%v on %s", err, c10Short(bs))
@@ -388,6 +391,7 @@ func init() {
 		b := exact(a[0].B)
 		panicked, timedOut, alloc, pv := Guarded(5*time.Second, func() {
 			var p nbtns.NBTNSPacket
+			dirty(&p)
 			p.Unmarshal(b)
 		})
 		if panicked {
